@@ -22,6 +22,7 @@ type c01Case struct {
 	Float uint64 `json:"float_bits,omitempty"`
 	Str   []byte `json:"str,omitempty"`
 	Ctor  string `json:"ctor,omitempty"`
+	Next  []byte `json:"next,omitempty"` // kind "pair": the value handled after Value while Value's results are retained
 }
 
 // c01CheckValue runs all round-trip clauses for one value tree. It returns
@@ -81,6 +82,63 @@ func c01CheckValue(v resp.Value) (clause, detail string) {
 	}
 	if m2 != nil || perr != nil {
 		return "parse-leftover", fmt.Sprintf("second Next after %s returned a value or error (%v)", trunc(want, 80), perr)
+	}
+	return "", ""
+}
+
+// c01CheckPair is the depth-2 part: the results obtained for v1 (its encoding,
+// the message parsed from it) are retained while v2 goes through the same
+// code, and must still describe v1 afterwards (a scratch buffer shared
+// between calls shows only here).
+func c01CheckPair(v1, v2 resp.Value) (clause, detail string) {
+	want1, want2 := v1.Bytes(), v2.Bytes()
+	var enc1, enc2 []byte
+	var err1, err2 error
+	if p := guard(func() {
+		enc1, err1 = toProto(v1).RESPBytes()
+		enc2, err2 = toProto(v2).RESPBytes()
+	}); p != "" {
+		return "serialize-panic", p
+	}
+	if err1 != nil || err2 != nil {
+		return "serialize-error", fmt.Sprint(err1, err2)
+	}
+	if !bytes.Equal(enc1, want1) {
+		return "retained-encoding-changed", fmt.Sprintf("the bytes returned for %s read %s after %s was serialized", v1, trunc(enc1, 80), v2)
+	}
+	if !bytes.Equal(enc2, want2) {
+		return "serialize-bytes", fmt.Sprintf("serialize(%s) after serialize(%s) = %s", v2, v1, trunc(enc2, 80))
+	}
+	// one stream carrying both values: the first message must survive the second Next
+	parser := proto.NewParserWithBytes(append(append([]byte{}, want1...), want2...))
+	var m1, m2 *proto.Message
+	if p := guard(func() {
+		m1, err1 = parser.Next()
+		m2, err2 = parser.Next()
+	}); p != "" {
+		return "parse-panic", p
+	}
+	if err1 != nil || err2 != nil || m1 == nil || m2 == nil {
+		return "parse-error", fmt.Sprintf("parse(%s): %v %v", trunc(append(want1, want2...), 80), err1, err2)
+	}
+	for i, pair := range []struct {
+		m *proto.Message
+		v resp.Value
+	}{{m1, v1}, {m2, v2}} {
+		back, absent, cerr := fromProto(pair.m, 0)
+		if cerr != nil || absent || !back.Equal(pair.v) {
+			return "retained-message-changed", fmt.Sprintf("value #%d of the stream %s reads %s after both were parsed (err=%v)", i+1, trunc(append(want1, want2...), 80), back, cerr)
+		}
+	}
+	// the serialization of a parsed message, retained across the next one
+	if p := guard(func() {
+		enc1, err1 = m1.RESPBytes()
+		enc2, err2 = m2.RESPBytes()
+	}); p != "" {
+		return "reserialize-panic", p
+	}
+	if err1 != nil || err2 != nil || !bytes.Equal(enc1, want1) || !bytes.Equal(enc2, want2) {
+		return "retained-encoding-changed", fmt.Sprintf("serialize(parse(%s)) reads %s after serialize(parse(%s))", v1, trunc(enc1, 80), v2)
 	}
 	return "", ""
 }
@@ -251,6 +309,24 @@ func c01Run(c *fw.Ctx) {
 	}
 	// (vi) constructors
 	c01Ctors(c, lineAlpha, bulkAlpha)
+	// (vii) ordered pairs: results for the first value retained across the second
+	pairVals := append(append([]resp.Value{}, leaves...), d1[:24]...)
+	for _, L := range []int{1, 7, 63, 64, 65, 511, 513, 4095, 4097, 32767, 32769, 65536} {
+		pairVals = append(pairVals, resp.Value{Kind: resp.Bulk, Data: big[:L]})
+		pairVals = append(pairVals, resp.A(resp.Value{Kind: resp.Bulk, Data: bytes.Repeat([]byte{'x'}, L)}, resp.I(int64(L))))
+	}
+	for _, a := range pairVals {
+		for _, b := range pairVals {
+			if !c.Mine() {
+				continue
+			}
+			c.Eval()
+			c.Nontrivial()
+			if clause, detail := c01CheckPair(a, b); clause != "" {
+				c.Violation("C01|pair:"+c01ValueKind(a)+"+"+c01ValueKind(b)+"|"+clause, detail, c01Case{Kind: "pair", Value: a.Bytes(), Next: b.Bytes()})
+			}
+		}
+	}
 }
 
 func nearPow2(L int) bool {
@@ -456,6 +532,15 @@ func c01Replay(raw json.RawMessage) (string, bool, error) {
 		clause, detail := c01CheckValue(v)
 		return fmt.Sprintf("value=%s clause=%q detail=%s", trunc(cs.Value, 200), clause, detail), clause != "", nil
 	}
+	if cs.Kind == "pair" {
+		v1, _, e1 := resp.Decode(cs.Value, 0)
+		v2, _, e2 := resp.Decode(cs.Next, 0)
+		if e1 != nil || e2 != nil {
+			return "", false, fmt.Errorf("replay case is not a pair of canonical values: %v %v", e1, e2)
+		}
+		clause, detail := c01CheckPair(v1, v2)
+		return fmt.Sprintf("first=%s next=%s clause=%q detail=%s", trunc(cs.Value, 100), trunc(cs.Next, 100), clause, detail), clause != "", nil
+	}
 	clause, detail := c01CheckCtor(cs)
 	return fmt.Sprintf("ctor=%s clause=%q detail=%s", cs.Ctor, clause, detail), clause != "", nil
 }
@@ -464,7 +549,7 @@ func init() {
 	fw.Register(&fw.Prop{
 		ID:    "C01",
 		Level: "exploration",
-		Rule:  "bounded-exhaustive value trees: line payloads len<=3 (thorough 5) over {a,0,-,+,:,$,*,SP,NUL,0xff}; bulk payloads len<=4 (thorough 6) over {a,CR,LF,NUL,$,*,+,:,-,0xff} + null; all 256 byte values in 4 shapes; bulk length sweep 0..65538 (quick: every length <=4096 and 2^k±2); arrays arity<=3 depth<=2 over 8 leaves ∪ 73 depth-1 arrays, depth 3 arity<=2; constructors over the same strings, ints -70000..70000 ∪ ±10^k±1 ∪ ±2^k±1 ∪ min/max, floats sign × all 2047 finite exponents × 8 mantissa patterns (thorough: 164, every single-bit, prefix-ones and single-zero mantissa). Every case is distinct by construction and non-trivial (each exercises serialize+parse+reserialize against an independent codec).",
+		Rule:  "bounded-exhaustive value trees: line payloads len<=3 (thorough 5) over {a,0,-,+,:,$,*,SP,NUL,0xff}; bulk payloads len<=4 (thorough 6) over {a,CR,LF,NUL,$,*,+,:,-,0xff} + null; all 256 byte values in 4 shapes; bulk length sweep 0..65538 (quick: every length <=4096 and 2^k±2); arrays arity<=3 depth<=2 over 8 leaves ∪ 73 depth-1 arrays, depth 3 arity<=2; constructors over the same strings, ints -70000..70000 ∪ ±10^k±1 ∪ ±2^k±1 ∪ min/max, floats sign × all 2047 finite exponents × 8 mantissa patterns (thorough: 164, every single-bit, prefix-ones and single-zero mantissa). Plus every ordered pair of 56 representative values (leaves, small arrays, bulk/array sizes around 2^k up to 65536): the encoding of the first and the message parsed from it are retained while the second is serialized/parsed and must be unchanged afterwards. Every case is distinct by construction and non-trivial (each exercises serialize+parse+reserialize against an independent codec).",
 		Assumptions: []string{
 			"the independent strict RESP2 codec in /verif/resp is the reference",
 			"null arrays are outside the property's value list and not generated",
